@@ -107,7 +107,7 @@ def items_of(program, style="spaced"):
             add(Item([an], ("arg", ci, ai)))
             add(_gap(sp, SP_ALTS, "sp"))
             add(Item(["="], "eq"))
-            add(_gap(sp, SP_ALTS + ["\n  "], "sp"))
+            add(_gap(sp, SP_ALTS + ["\n  ", "  # the value is on the next line\n    "], "sp"))
             _value_items(val, items, (ci, ai), sp)
             add(_gap("", [" ", "\t"], "sp-after-value"))
         if args:
@@ -166,11 +166,11 @@ def _value_items(val, items, path, sp):
     k = val[0]
     if k == "list":
         add(Item(["["], ("val", path)))
-        add(_gap("", [" "] + NL_ALTS[:2], "nl"))
+        add(_gap("", [" "] + NL_ALTS[:3], "nl"))
         for ei, e in enumerate(val[1]):
             if ei:
                 add(Item([","], "comma"))
-                add(_gap(" ", ["", "  "] + NL_ALTS[:2], "nl"))
+                add(_gap(" ", ["", "  "] + NL_ALTS[:3], "nl"))  # (incl. a comment after the comma: the next element starts a line that follows a comment)
             _value_items(e, items, path + (ei,), sp)
             add(_gap("", [" "], "sp-after-value"))
         if val[1]:
@@ -183,11 +183,11 @@ def _value_items(val, items, path, sp):
         for ei, (kk, key, v) in enumerate(val[1]):
             if ei:
                 add(Item([","], "comma"))
-                add(_gap(" ", ["", "  "] + NL_ALTS[:2], "nl"))
+                add(_gap(" ", ["", "  "] + NL_ALTS[:3], "nl"))
             add(_scalar_item((kk, key), path + (key,), "key"))
             add(_gap("", [" "], "sp"))
             add(Item([":"], "colon"))
-            add(_gap(sp, ["", " ", "  "], "sp"))
+            add(_gap(sp, ["", " ", "  ", "  # the value is on the next line\n    "], "sp"))
             add(_scalar_item(v, path + (key, "v"), "tval"))
             add(_gap("", [" "], "sp-after-value"))
         add(Item(["", ","], "trailing-comma"))
